@@ -35,6 +35,7 @@ def list_jobs():
     jobs = [(f"lemma:C12|{c}|{f}|{v or ''}|{d}|{e}|{cc}", "lemma") for c, f, v, d, e, cc in LEMMAS]
     jobs.append(("effects:ModelingUpdate.__init__", "effects"))
     jobs.append(("chain:optimize_attr_updates_chain", "chain"))
+    jobs += [(j, "timebuilder") for j in TIMEBUILDER_JOBS]
     return jobs
 
 
@@ -203,6 +204,7 @@ def run(job_id, st, rlimit):
     if job_id.startswith("lemma:C12"): return lemma_job(job_id.split(":", 1)[1], st, rlimit)
     if job_id.startswith("effects:"): return effects_job(job_id, st, rlimit)
     if job_id.startswith("chain:"): return chain_job(job_id, st, rlimit)
+    if job_id.startswith("timebuilder:"): return timebuilder_job(job_id, st, rlimit)
     raise KeyError(job_id)
 
 
@@ -273,3 +275,114 @@ def chain_job(job_id, st, rlimit):
             eng_.undecided(f"{QN_OPT}/unsupported", str(e))
     eng.explore(thunk, QN_OPT)
     return [(ex.info(), eng)]
+
+
+# ------------------------------------------------------------------------------------------------ time builders (C20)
+TB = "efootprint.builders.time_builders."
+
+
+def _match(freq, ad_none, hr_none, AD, HR):
+    cal = lambda f, tick: z3.Function("CAL." + f, z3.IntSort(), z3.IntSort())(tick)
+    def m(tick):
+        hr = (cal("hour", tick) == 0) if hr_none else HR(cal("hour", tick))
+        if freq == "daily": return hr
+        field = {"weekly": "day_of_week", "monthly": "day", "yearly": "day_of_year"}[freq]
+        dflt = 0 if freq == "weekly" else 1
+        ad = (cal(field, tick) == dflt) if ad_none else AD(cal(field, tick))
+        return z3.And(ad, hr)
+    return m
+
+
+def timebuilder_job(job_id, st, rlimit):
+    from ..sym import PArr, IntSet, Havoc
+    from ..interp import TS
+    units, world = st["units"], st["world"]
+    which = job_id.split(":", 1)[1]
+    eng = Engine(rlimit=rlimit)
+    I_ = z3.IntSort()
+    if which == "create_hourly_usage_df_from_list":
+        ex = extract(TB + which)
+        def thunk(eng_):
+            I = Interp(eng_, units, specs=MV_.all_specs(world), world=world)
+            try:
+                n = z3.Int("list.len"); eng_.assume(n >= 0)
+                at = z3.Function("list.at", I_, z3.RealSort())
+                s0 = z3.Int("start.tick")
+                unit = Unit(DIMLESS, z3.Real("unit.factor"), "pint_unit"); eng_.assume(unit.f > 0)
+                lst = PArr(n, lambda p: at(z3.ToInt(p) if p.sort() != I_ else p))
+                I.phase = "body"
+                res = I.exec_function(ex.node, [lst, TS(s0), unit], qualname=TB + which)
+                q = TB + which
+                if not isinstance(res, DF): eng_.oblige(f"{q}/returns a DataFrame", False); return
+                v = res.vec
+                eng_.oblige(f"{q}/C20: one value per hour from the start date, contiguous: index = start + i h, 0 <= i < len(list)",
+                            v.inidx(TT) == z3.And(TT >= s0, TT < s0 + HOUR * n, (TT - s0) % HOUR == 0))
+                eng_.oblige(f"{q}/C20: the list is reproduced element for element, in the requested unit",
+                            z3.Implies(v.inidx(TT), v.val(TT) == at((TT - s0) / HOUR) * unit.f))
+                eng_.oblige(f"{q}/C20: requested unit", rv(res.unit.factor) == unit.f)
+                eng_.obligations.append(Obligation(f"{q}/cover", list(eng_.run.pc), z3.BoolVal(False), "cover", eng_.fn, tuple(eng_.run.taken)))
+            except Unsupported as e:
+                eng_.undecided(f"{TB + which}/unsupported", str(e))
+        eng.explore(thunk, TB + which)
+        return [(ex.info(), eng)]
+    # create_hourly_usage_from_frequency | freq | active_days none? | hours none?
+    fn, freq, adn, hrn = which.split("|")
+    ex = extract(TB + fn)
+    q = TB + fn
+    case = f"{q} [frequency={freq}, active_days={'None' if adn == '1' else 'given'}, hours={'None' if hrn == '1' else 'given'}]"
+    def thunk(eng_):
+        I = Interp(eng_, units, specs=MV_.all_specs(world), world=world)
+        try:
+            span = z3.Real("timespan.phys"); eng_.assume(span >= 0)
+            tf = z3.Real("timespan.factor"); eng_.assume(tf > 0)
+            vol = z3.Real("input_volume")
+            s0 = z3.Int("start.tick")
+            unit = Unit(DIMLESS, z3.Real("unit.factor"), "pint_unit"); eng_.assume(unit.f > 0)
+            AD = z3.Function("active_days.has", I_, z3.BoolSort()); HR = z3.Function("hours.has", I_, z3.BoolSort())
+            ad = NONE if adn == "1" else IntSet(lambda x: AD(x), "active_days")
+            hr = NONE if hrn == "1" else IntSet(lambda x: HR(x), "hours")
+            valid = freq in ("daily", "weekly", "monthly", "yearly") and not (freq == "daily" and adn == "0")
+            N = z3.If(span >= 0, floor_i(span / 3600) + 1, z3.IntVal(0))
+            match = _match(freq, adn == "1", hrn == "1", AD, HR) if valid else None
+            cnt = [0]
+            def mk():
+                cnt[0] += 1
+                f_ = z3.Function(f"values{cnt[0]}.at", I_, z3.RealSort())
+                return PArr(N, lambda p, f_=f_: f_(z3.ToInt(p) if p.sort() != I_ else p))
+            pp = z3.Int("p")
+            def inv(arr, i):
+                if not isinstance(arr, PArr): return [z3.BoolVal(False)]
+                return [z3.ForAll([pp], z3.Implies(z3.And(0 <= pp, pp < N), arr.at(pp) == z3.If(z3.And(pp < i, match(s0 + HOUR * pp)), vol, z3.RealVal(0))))]
+            def loop0(ctx):
+                def view(i): return {"values": Havoc(mk, inv)}
+                return view
+            I.phase = "body"
+            try:
+                res = I.exec_function(ex.node, [Qty(span, Unit(W_TIME, tf)), PyNum(vol), freq, ad, hr, TS(s0), unit], loop_specs={0: loop0}, qualname=q)
+                got = ("ret", res)
+            except SymRaise as e:
+                got = ("raise", e.exc)
+            if not valid:
+                eng_.oblige(f"{q}/C20: invalid arguments are refused with ValueError", got == ("raise", "ValueError")); return
+            if got[0] != "ret":
+                eng_.oblige(f"{q}/outcome: body raises {got[1]} on valid arguments", False); return
+            if isinstance(res, ExplU): res = I.resolve(res)
+            if not (isinstance(res, Expl) and res.kind == "ehq"):
+                eng_.oblige(f"{q}/returns hourly values", False); return
+            v = res.value.vec
+            eng_.oblige(f"{q}/C20: one value per hour from the start date, contiguous, spanning the requested time span",
+                        v.inidx(TT) == z3.And(TT >= s0, TT < s0 + HOUR * N, (TT - s0) % HOUR == 0))
+            eng_.oblige(f"{q}/C20: the volume is carried at exactly the matching hours (right calendar field, right list), zero elsewhere",
+                        z3.Implies(v.inidx(TT), v.val(TT) == z3.If(match(TT), vol, z3.RealVal(0)) * unit.f))
+            eng_.oblige(f"{q}/C20: requested unit", rv(res.value.unit.factor) == unit.f)
+            eng_.oblige(f"{q}/label", res.label.nonempty)
+            eng_.obligations.append(Obligation(f"{q}/cover", list(eng_.run.pc), z3.BoolVal(False), "cover", eng_.fn, tuple(eng_.run.taken)))
+        except Unsupported as e:
+            eng_.undecided(f"{case}/unsupported", str(e))
+    eng.explore(thunk, case)
+    return [(ex.info(), eng)]
+
+
+W_TIME = Dim({"[time]": 1})
+TIMEBUILDER_JOBS = ["timebuilder:create_hourly_usage_df_from_list"] + [
+    f"timebuilder:create_hourly_usage_from_frequency|{f}|{a}|{h}" for f in ("daily", "weekly", "monthly", "yearly", "hourly") for a in ("1", "0") for h in ("1", "0")]
